@@ -4,35 +4,11 @@ import (
 	"bytes"
 	"encoding/json"
 
-	"com.tuntun.rangers/node/src/common"
 	"com.tuntun.rangers/node/src/middleware/db"
-	"com.tuntun.rangers/node/src/middleware/log"
-	"com.tuntun.rangers/node/src/middleware/mysql"
-	"com.tuntun.rangers/node/src/middleware/notify"
 	"com.tuntun.rangers/node/src/middleware/types"
-	symx "com.tuntun.rangers/node/src/zz_symx"
 	"com.tuntun.rangers/node/src/utility"
+	symx "com.tuntun.rangers/node/src/zz_symx"
 )
-
-type c19Helper struct {
-	types.ConsensusHelper // only CheckGroup is used
-}
-
-func (c19Helper) CheckGroup(g *types.Group) (bool, error) { return true, nil }
-
-var c19Init bool
-
-func c19Setup() {
-	if !c19Init {
-		common.Init(0, "verif.ini", "mainnet")
-		logger = log.GetLoggerByIndex(log.CoreLogConfig, "0")
-		syncLogger = log.GetLoggerByIndex(log.SyncLogConfig, "0")
-		mysql.InitMySql()
-		notify.BUS = notify.NewBus()
-		c19Init = true
-	}
-	consensusHelper = c19Helper{}
-}
 
 func c19Group(name byte, pre, parent *types.Group) *types.Group {
 	g := &types.Group{Id: []byte{0x60, name}, PubKey: symx.Bytes("pk", 2)}
